@@ -1,0 +1,37 @@
+//! Verification hooks, compiled only with the cargo feature `verif`.
+//!
+//! Nothing in here is used by the crate unless a test harness sets an override. With the
+//! feature disabled this module does not exist and no other line of the crate changes.
+
+use std::sync::atomic::{AtomicU64, AtomicUsize, Ordering};
+
+static CLOCK: AtomicU64 = AtomicU64::new(0);
+static SPLIT_FACTOR: AtomicUsize = AtomicUsize::new(0);
+static MAX_SET_SIZE: AtomicUsize = AtomicUsize::new(0);
+
+/// Pin the clock used for local timestamps and for the future-timestamp bound (micros since
+/// epoch). `0` restores the system clock.
+pub fn set_clock(now_micros: u64) {
+    CLOCK.store(now_micros, Ordering::SeqCst);
+}
+
+pub(crate) fn clock_override() -> Option<u64> {
+    match CLOCK.load(Ordering::SeqCst) {
+        0 => None,
+        now => Some(now),
+    }
+}
+
+/// Override the reconciliation parameters used by `Replica::sync_process_message`.
+/// `(0, _)` restores the default.
+pub fn set_sync_config(split_factor: usize, max_set_size: usize) {
+    MAX_SET_SIZE.store(max_set_size, Ordering::SeqCst);
+    SPLIT_FACTOR.store(split_factor, Ordering::SeqCst);
+}
+
+pub(crate) fn sync_config_override() -> Option<(usize, usize)> {
+    match SPLIT_FACTOR.load(Ordering::SeqCst) {
+        0 => None,
+        split => Some((split, MAX_SET_SIZE.load(Ordering::SeqCst))),
+    }
+}
